@@ -1,3 +1,4 @@
+import keyword
 import re
 import string
 from abc import ABC, abstractmethod
@@ -15,7 +16,10 @@ class BuiltinNameSanitizer(NameSanitizer):
 
     def sanitize(self, name: str) -> str:
         if name == "":
-            return ""
+            return "_"
 
         first_letter = name[0] if name[0] in string.ascii_letters else "_"
-        return first_letter + self._BAD_CHARS.sub("", name[1:].translate(self._TRANSLATE_MAP))
+        result = first_letter + self._BAD_CHARS.sub("", name[1:].translate(self._TRANSLATE_MAP))
+        if keyword.iskeyword(result):
+            return result + "_"
+        return result
